@@ -12,7 +12,8 @@ EXPLANATION = (
     "combinator configuration are under contract. B tier (bounded, never "
     "counted as proved): every program of an enumerated scope of expression shapes is compiled by the real pipeline; the "
     "emitted blueprint is executed symbolically by the S2 circuit model and compared by SMT, for ALL int32 valuations of "
-    "the named inputs, with the S3 source semantics, output by output (value and signal type)."
+    "the named inputs, with the S3 source semantics, output by output (value and signal type); the repository's own stateless example programs are judged the same way; "
+    "and because S3 takes its syntax trees from the compiler's parser, that parser is checked on its own against the documented precedence / associativity table."
 )
 
 
